@@ -754,4 +754,73 @@ func run(r *hk.Run) {
 			e.doZuc("malformed", rng.Bytes(rng.Intn(17)), rng.Bytes(rng.Intn(18)), uint32(rng.Intn(3)))
 		}
 	}
+
+	// (5) mass differential sweep of zuc.Zuc against the Go reference above (written from the
+	// specification with % (2^31-1) arithmetic and validated by the published vectors and by the
+	// Coq spec on every other stream).  Rare events of the mod 2^31-1 adder (a double fold, a zero
+	// residue) have probability about 1e-9 per clock; sweeping all NAS COUNT values for a few keys
+	// reaches them.  Implementation only (the Coq model is not run on these).
+	massSweep(r, e)
+}
+
+func massSweep(r *hk.Run, e *env) {
+	total := r.N(1<<26, 1<<28)
+	workers := 16
+	keys := [][]byte{
+		{0x17, 0x3d, 0x14, 0xba, 0x50, 0x03, 0x73, 0x1d, 0x7a, 0x60, 0x04, 0x94, 0x70, 0xf0, 0x0a, 0x29},
+		fill(0), fill(0xff), r.Rng.Bytes(16),
+	}
+	type bad struct {
+		key, iv []byte
+		got, want []uint32
+	}
+	ch := make(chan bad, 64)
+	done := make(chan int, workers)
+	per := total / workers
+	for w := 0; w < workers; w++ {
+		go func(w int) {
+			n := 0
+			iv := make([]byte, 16)
+			for i := 0; i < per; i++ {
+				x := uint64(w)*uint64(per) + uint64(i)
+				key := keys[(x>>26)%uint64(len(keys))]
+				count := uint32(x & 0xffffff)
+				bearer := uint8((x >> 24) & 1) + 1
+				dir := uint8((x >> 25) & 1)
+				iv[0], iv[1], iv[2], iv[3] = byte(count>>24), byte(count>>16), byte(count>>8), byte(count)
+				iv[4] = bearer<<3 | dir<<2
+				iv[5], iv[6], iv[7] = 0, 0, 0
+				copy(iv[8:], iv[:8])
+				var got []uint32
+				func() {
+					defer func() { _ = recover() }()
+					got = zuc.Zuc(key, iv, 2)
+				}()
+				want := refZuc(key, iv, 2)
+				n++
+				if len(got) != 2 || got[0] != want[0] || got[1] != want[1] {
+					select {
+					case ch <- bad{append([]byte{}, key...), append([]byte{}, iv...), got, want}:
+					default:
+					}
+				}
+			}
+			done <- n
+		}(w)
+	}
+	n := 0
+	for w := 0; w < workers; w++ {
+		n += <-done
+	}
+	close(ch)
+	r.Evals += n
+	r.Streams["mass-sweep-vs-go-reference(impl only)"] = n
+	k := 0
+	for b := range ch {
+		if k < 5 {
+			e.fail("zuc.Zuc", "keystream-differs-from-standard", map[string]interface{}{"key": hk.Hex(b.key), "iv": hk.Hex(b.iv)},
+				fmt.Sprintf("keystream %08x, ZUC v1.6 gives %08x", b.got, b.want))
+		}
+		k++
+	}
 }
